@@ -4,6 +4,7 @@
 From Coq Require Import List NArith ZArith Bool Arith String.
 Import ListNotations.
 Require Import Scan Parse Construct ConstructLemmas.
+Require ComposerTotal ComposerSpec.
 
 (* KIND C13_alias_is_identity : U *)
 (* in EVERY composer state: an alias to a defined anchor yields the anchored node itself (same id) - no node is allocated, store and anchors unchanged *)
@@ -61,6 +62,44 @@ Example C13_self_reference_examples :
   snd (load_all false (txt [91;42;97;93]%N)) = LComposer 1 /\
   snd (load_all false (txt [91;38;97;32;120;44;32;38;97;32;121;93]%N)) = LComposer 2.
 Proof. exact l_self_reference_examples. Qed.
+
+(* KIND C13_composer_numbering : U *)
+(* whole nodes, EVERY grammatical node (any depth) in EVERY composer state: when the composer returns a node it has consumed exactly the
+   node's events, the node store grew by exactly one entry per scalar / collection start event (ids are positions in document
+   order), and the anchor table is the old table followed by (name, id) of every anchored node in document order - aliases add
+   nothing.  With C13_alias_is_identity (an alias returns the table's entry) and C13_duplicate_anchor_rejected (a name is defined
+   once) this fixes which node every alias of a document denotes *)
+Theorem C13_composer_numbering : forall es rest base st an fuel,
+  ComposerTotal.clang ComposerTotal.KNode (map e_kind es) -> List.length es < fuel ->
+  ComposerSpec.spec (compose_node fuel base (ComposerTotal.mkc (es ++ rest) st an)) (map e_kind es) rest st an.
+Proof. exact ComposerSpec.composer_numbering. Qed.
+Eval vm_compute in "ASSUME:C13_composer_numbering"%string. Print Assumptions C13_composer_numbering.
+(* KIND C13_composer_result_id : U *)
+(* what a node composes to, in every state: an alias gives the id the anchor table holds for its name, every other node the next
+   free id of the node store (so two places of a document hold the same node only through an alias) *)
+Theorem C13_composer_result_id : forall e es base st an fuel id s',
+  compose_node fuel base (ComposerTotal.mkc (e :: es) st an) = LOk (id, s') ->
+  match e_kind e with
+  | VAlias x => assoc_nat x an = Some id
+  | VScalar _ _ _ _ _ _ | VSeqStart _ _ _ _ | VMapStart _ _ _ _ => id = List.length st
+  | _ => False
+  end.
+Proof. exact ComposerSpec.composer_result_id. Qed.
+Eval vm_compute in "ASSUME:C13_composer_result_id"%string. Print Assumptions C13_composer_result_id.
+(* KIND C13_numbering_nonvacuous : F *)
+(* `[&x a, {k: *x}, &y [*x]]` from an empty state: 5 nodes (ids 0..4: seq, a, map, k, inner seq), anchors x -> 1, y -> 4, the two aliases of x give node 1 *)
+Example C13_numbering_nonvacuous :
+  let m := {| m_index := 0; m_line := 0; m_col := 0 |} in
+  let e k := {| e_kind := k; e_start := m; e_end := m |} in
+  let x := [120%N] in let y := [121%N] in
+  let sc a := VScalar a None true false [97%N] SPlain in
+  let doc := [e (VSeqStart None None true true); e (sc (Some x)); e (VMapStart None None true true); e (sc None); e (VAlias x); e VMapEnd;
+              e (VSeqStart (Some y) None true true); e (VAlias x); e VSeqEnd; e VSeqEnd] in
+  match compose_node 11 false (ComposerTotal.mkc doc [] []) with
+  | LOk (id, s') => id = 0 /\ List.length (store s') = 5 /\ anchors s' = [(x, 1); (y, 4)] /\
+                    option_map n_kind (nth_error (store s') 2) = Some (NMap [(3, 1)]) /\ option_map n_kind (nth_error (store s') 4) = Some (NSeq [1])
+  | _ => False end.
+Proof. vm_compute. repeat split; reflexivity. Qed.
 
 (* PARTIAL: the global statement (two places are the same object IFF anchor/alias, for whole documents incl. cycles) is not proved:
    it is decided by the construct correspondence (graphs with identity numbering) and the direct run against identity classes computed
